@@ -110,6 +110,83 @@ CLAIMS = {
             "Flatness/size >= 1e-4; control points within 1e-9 x scale of the exact restriction count as equal; "
             "termination observed up to a line budget.",
             "DESIGN.md §3.3, §4 C10"),
+    "C11": ("Hypothesis property test + exhaustive align x meetOrSlice x defer x aspect x case grid; oracle = SVG 1.1 "
+            "section 7.8 evaluated in exact rationals, compared through the documented application of the transform; "
+            "atheris stage on the attribute text in the thorough tier",
+            "Generated viewBox / preserveAspectRatio texts (separator, case and defer variants, equal / wider / taller "
+            "aspect, negative origins, malformed and non-positive values) against a reference written from the SVG "
+            "specification. Found one defect on the pinned tree (non-numeric viewBox raised; repaired). Exploration.",
+            "Number tokens follow the SVG grammar; relative tolerance 1e-9 on mapped viewBox edges.",
+            "DESIGN.md §4 C11, §5 F9"),
+    "C12": ("Hypothesis property test + exhaustive numeral x unit x padding grid; oracle = exact decimal value of the "
+            "numeral and the SVG unit table at 96 px/in in rationals; round trip through userUnitToUnits; differential "
+            "across the four unit tables (unitsToUserUnits, userUnitToUnits, getLength, getLengthInches on a real lxml "
+            "document); atheris stage on the text in the thorough tier",
+            "Generated numerals in every SVG float syntax x all units x padding, plus malformed / unsupported-unit "
+            "texts; every copy of the unit table is compared with the same exact reference, so a wrong constant in "
+            "one copy for one unit is decided. Exploration.",
+            "Relative tolerance 1e-12; magnitudes 1e-200..1e200; lower-case q is a consistent don't-care.",
+            "DESIGN.md §4 C12"),
+    "C13": ("Hypothesis-generated histories (index construction, then interleaved nearest queries and removals, shrunk "
+            "as one value) against a model of the live ends + a reference grid read from the index's published "
+            "geometry; exact rational distances; validity predicate rather than a single expected id",
+            "Generated path sets (lattice, clusters, rows, page coordinates, floats over scales) x bins x reversal x "
+            "query/removal histories with queries inside, on borders, outside on one or both axes and exactly at ends. "
+            "Decides: None iff empty, liveness of the returned end, no neighbourhood end closer, global nearest when "
+            "the neighbourhood is empty, true nearest within one cell width. Exploration.",
+            "Ends within 1e-9 cell of a border make the neighbourhood clause a don't-care for that query (counted); "
+            "distances compared with 1e-12 relative slack.",
+            "DESIGN.md §4 C13"),
+    "C14": ("Hypothesis property test + exhaustive small worlds (every multiset of <= 3 boxes from 24 lattice boxes x "
+            "48 queries); oracle = brute-force closed-interval overlap, set equality; deterministic executed-line "
+            "budget for termination of construction",
+            "Lattice-heavy generated box collections (zero-extent boxes, boxes on split lines, hatch lines, plus "
+            "signs, tile grids, nesting, mirror symmetry, duplicates) and queries that touch edges/corners exactly. "
+            "Found one defect on the pinned tree (degenerate boxes lost; repaired). Exploration.",
+            "Termination observed up to 80 boxes under a line budget; ids distinct.",
+            "DESIGN.md §4 C14, §5 F10"),
+    "C15": ("Exhaustive version grid (11^3 versions x 14 thresholds, both layers) + Hypothesis-generated versions; "
+            "generated and exhaustive connect() handshake scripts on a fake serial.Serial / comports with injected "
+            "open and probe faults and retries; legacy feature gates on a legacy board stub; oracle = integer-tuple "
+            "order and the statement's accept/refuse table",
+            "Version order, the connect gate (prompt / late / garbage-then-EBB / non-EBB / silent device x version x "
+            "faults x lookups, followed by a request that must transmit nothing) and five legacy gates are decided "
+            "against an independent reference. Exploration with exhaustive finite parts.",
+            "ASCII replies; exceptions after verification are outside the statement; retried connect held to the "
+            "lenient reading.",
+            "DESIGN.md §4 C15"),
+    "C16": ("Hypothesis-generated operation histories + exhaustive (r1,r2) x prior-state grid and boundary-int32 x "
+            "slot grid against a simulated board (SL/QL, ST/QT, EM/QE, CU) reached through the real connect() "
+            "handshake; oracle = byte-array / nickname / motor model compared with the board's state and with every "
+            "read-back",
+            "Write-then-read histories over int32 values (carry and sign boundaries), overlapping slots, nicknames "
+            "with padding, motor requests from arbitrary prior motor states. Exploration with exhaustive finite parts.",
+            "The simulated board follows the EM/SL/ST documentation quoted in plotink's docstrings.",
+            "DESIGN.md §3.2, §4 C16"),
+    "C18": ("Hypothesis property test + exhaustive half-integer lattice (8281 scalar tuples, 18252 2-D tuples); "
+            "oracle = exact rational comparison with a 2-ulp don't-care only where bound +/- tolerance is not a float; "
+            "differential point_in_bounds vs checkLimitsTol",
+            "Values placed at each bound, bound +/- tolerance, one ulp either side, tiny relative overshoots at large "
+            "bounds, degenerate ranges, ints and floats. Exploration.",
+            "Finite arguments, lower <= upper, tolerance >= 0.",
+            "DESIGN.md §4 C18"),
+    "C19": ("Hypothesis property test over an OS-styled port-descriptor grammar + exhaustive ordered selections of "
+            "<= 3 ports from a 10-shape catalogue, with comports() replaced by a stub; oracle = the statement's "
+            "preference order written independently; differential legacy vs EBB3 layer",
+            "First-board discovery, listing, and lookup by the library's own reported name / serial tag / device in "
+            "every case variant, for both layers, on generated port lists (named, unnamed, Windows, pyserial 2.7, "
+            "VID:PID-only, foreign, near-miss devices; prefix and case-variant names). Exploration.",
+            "An earlier port containing the key anywhere releases the demand for the later board.",
+            "DESIGN.md §4 C19"),
+    "C20": ("Hypothesis property tests + exhaustive grids (all strings of <= 3 atoms; every quarter second in "
+            "[0, 7300) s as seconds and milliseconds); oracle = round trip through expat and lxml modulo XML's own "
+            "normalisation, and decode-and-compare of the leading duration field; atheris stage on the text in the "
+            "thorough tier",
+            "Strings over the XML Char production weighted on specials, pre-escaped entities and line ends; durations "
+            "weighted on the 10 s switch and every n*60 - 0.5 carry, as int/float seconds and milliseconds. "
+            "Exploration.",
+            "Label wording after the numeric field is ignored; exact ties may round either way.",
+            "DESIGN.md §4 C20"),
 }
 
 NOT_YET = "check not built yet in this session (planned in DESIGN.md §4); not claimed until it runs green"
